@@ -38,7 +38,8 @@ def parse_open_wire(w):
             caps.append((cc, cv.hex()))
             if cc == 65 and len(cv) == 4:
                 asn = struct.unpack('!I', cv)[0]
-    return {'version': ver, 'asn': asn, 'hold': hold, 'id': bid, 'caps': sorted(set(caps))}
+    return {'version': ver, 'asn': asn, 'hold': hold, 'id': bid, 'caps': sorted(set(caps)),
+            'my_as_field': struct.unpack('!H', body[1:3])[0]}
 
 
 class Monitor(object):
@@ -203,9 +204,11 @@ class Monitor(object):
             if o[0] == 'write' and bytes.fromhex(o[2])[18] == 1:
                 po = parse_open_wire(bytes.fromhex(o[2]))
                 self.opens_seen += 1
-                if po['version'] != 4 or po['asn'] != self.cfg['local_as'] or po['hold'] != self.cfg['hold_time']:
-                    self.fail('C05', 'our OPEN does not carry version 4 / configured AS / configured hold time: %r' % (po,),
-                              'open-fields')
+                want_field = self.cfg['local_as'] if self.cfg['local_as'] <= 65535 else 23456
+                if po['version'] != 4 or po['asn'] != self.cfg['local_as'] or po['hold'] != self.cfg['hold_time'] \
+                        or po['my_as_field'] != want_field:
+                    self.fail('C05', 'our OPEN does not carry version 4 / configured AS (My-AS field %d expected) / configured '
+                                     'hold time: %r' % (want_field, po), 'open-fields')
                 if self.first_open is None:
                     self.first_open = po
                 elif po != self.first_open:
